@@ -66,6 +66,7 @@ typedef struct vj {
 	json_t j;                       /* type + refcount, must be first                */
 	json_int_t ival;                /* JSON_INTEGER                                  */
 	unsigned n;                     /* JSON_ARRAY: number of elements in val[0..n)   */
+	unsigned nk;                    /* number of non-NULL val[] entries              */
 	struct vj *val[VJ_MAXM];        /* object: slot k value (NULL = absent)          */
 	char key[VJ_MAXM][VJ_KLEN + 1]; /* object: slot k key text                       */
 	char s[VJ_SLEN + 1];            /* JSON_STRING                                   */
@@ -82,7 +83,8 @@ json_t *vj_havoc_scalar_or_empty(void);                  /* any JSON type; conta
 json_t *vj_havoc_value(int depth);                       /* containers filled to depth      */
 json_t *vj_havoc_object(const char *const *alpha, unsigned nalpha, int depth);
 json_t *vj_havoc_array(unsigned maxn, int depth);
-int vj_equal(const json_t *a, const json_t *b);          /* deep equality (reference)       */
+int vj_equal(const json_t *a, const json_t *b);
+json_t *vj_clone(const json_t *value);                   /* clone of a depth-1 tree         */          /* deep equality (reference)       */
 
 /* supplied by each harness (or models/parse_default.c): result of the n-th json_load* call.   *
  * buf/len are the bytes libjwt asked jansson to parse (NULL for file/FILE* sources).          */
